@@ -55,7 +55,7 @@ def run_plan(plan, sched_seed=None, sched_replay=None):
 
     def finish(world, run):
         run.check_lost()
-        world.check_loop_health()
+        world.check_loop_health(internal_errors=True)
 
     world, run = chanload.run_channels(plan, sched_seed, sched_replay,
                                        between=between, finish=finish)
